@@ -8,7 +8,7 @@ from harness.rngshim import Tape, install
 from runner import Case, CaseSet
 
 ID = 'C18'
-OBLIGATIONS = ['Props/C18.v', 'Props/Tie/wl_tie.v', 'Props/Tie/minipy_wl_tie.v']
+OBLIGATIONS = ['Props/C18.v', 'Props/Tie/wl_tie.v', 'Props/Tie/minipy_wl_tie.v', 'Props/Tie/minipy_wlsetup_tie.v']
 RULE = ('short sequences (N 8..18) x nbins 2..6 x bin ranges inside [0,1] (the machine\'s nbins_actual / relevant_min are compared with the model\'s geometry of the REQUESTED range) x flat-check period 50..300 x flatness criterion 0.1..0.6 x '
         'convergence exp(2^-m)(1+-1e-3), m = 1..3, each under a seeded RNG tape (quick 6 runs, thorough 30); every step of every run '
         'is one replayed record; non-trivial = distinct run with >= 1 accepted and >= 1 rejected in-range proposal and >= 1 passed flat check')
@@ -22,7 +22,7 @@ LEVEL_TEXT = ('Proof (for every event list meeting the side conditions): the cur
               'the midpoints (2i+1)/(2n). Tie: weights/flatness/sqrt/log shapes from source; complete runs on the real machine are replayed '
               'step by step inside Coq (bins, accept decisions, g, H, flat checks, returned array) and the six log files are cross-checked.')
 LEVEL_NOTE = 'Closed under the global context. exp/log/f**0.5 are float glue; Mersenne twister replaced by the tape.'
-LEVEL_NOTE_MINIPY = (' Whole-function ties (minipy_wl_tie.v): indexInsideRelevantRegion, __run_flatcheck and the whole body of the while-loop of run_normal_WL are translated into '
+LEVEL_NOTE_MINIPY = (' Set-up (minipy_wlsetup_tie.v, setup_tie): every statement of run_normal_WL before the loop leaves g and H all zero with one entry per bin, f = e, all counters zero, the current object built from the permutant the delta-max search returns and idx_old the nearest bin of its kappa, for any oracles. Whole-function ties (minipy_wl_tie.v): indexInsideRelevantRegion, __run_flatcheck and the whole body of the while-loop of run_normal_WL are translated into '
                      'Core/MiniPy.v terms on every run; one iteration = Model.WL.wl_step for every state and every oracle outcome (moves, kappa, nearest centre, np.exp, uniform draws).')
 TECHNIQUE = 'Coq proof (state-machine invariants over event lists) + trace-hook replay correspondence'
 
